@@ -241,4 +241,29 @@ func solveAll(gens []*Gen, prelude string, outDir string, timeoutS int, workers 
 	}
 	close(ch)
 	wg.Wait()
+	// second chance for timeouts: a query that ran out of time while all workers were
+	// busy (or the machine was loaded) is retried with twice the budget, a few at a
+	// time; a genuine failure is rarely a timeout (it comes back unknown quickly)
+	var retry []job
+	for _, j := range jobs {
+		if j.o.Must != "sat" && j.o.Result != nil && j.o.Result.Status == "timeout" {
+			retry = append(retry, j)
+		}
+	}
+	if len(retry) > 0 && len(retry) <= 40 {
+		sem := make(chan struct{}, 4)
+		var wg2 sync.WaitGroup
+		for _, j := range retry {
+			wg2.Add(1)
+			sem <- struct{}{}
+			go func(j job) {
+				defer wg2.Done()
+				defer func() { <-sem }()
+				r := discharge(j.o.Result.File, 2*timeoutS)
+				r.Time += j.o.Result.Time
+				j.o.Result = &r
+			}(j)
+		}
+		wg2.Wait()
+	}
 }
